@@ -246,10 +246,17 @@ func legacy2SuggestWords(db *database.Database) []string {
 	}
 	sort.Strings(ws)
 	for i := range ws {
+		if strings.Contains(ws[i], " ") {
+			legacy2SpaceInWord = ws[i]
+		}
 		ws[i] = strings.ReplaceAll(ws[i], "\x00", " ")
 	}
 	return ws
 }
+
+// legacy2SpaceInWord: a candidate word containing a space BEFORE the NUL replacement (never expected:
+// strings.Fields / Trim / ToLower cannot produce one); hypothesis `SpaceFree` of suggestion_words_deterministic.
+var legacy2SpaceInWord string
 
 func legacy2PairList(idx []int, sc []float64) string {
 	if len(idx) == 0 {
@@ -756,6 +763,10 @@ func legacy2Exec(ops []string, mon *Mon) []string {
 			m := Atoi(f[2])
 			out = append(out, legacy2Guard(mon, "GetSuggestions", q, func() string {
 				ss := d.GetSuggestions(q, m)
+				legacy2SpaceInWord = ""
+				if legacy2SuggestWords(d); legacy2SpaceInWord != "" {
+					mon.Hit("C01", "oracle-suggestion-word-with-space", map[string]interface{}{"word": legacy2SpaceInWord})
+				}
 				eff := effLimit(m, legacyDefaultLimit) // constants.DefaultMaxResults has the same value; the model uses the regenerated one
 				if len(ss) > eff {
 					mon.Hit("C01", "suggestions-more-than-max", map[string]interface{}{"entry": "GetSuggestions", "query": q, "max": m, "n": len(ss)})
